@@ -272,10 +272,29 @@ def locate(toks, path):
                     d += 1
                 elif t.kind == "punct" and t.text in CLOSE:
                     d -= 1
+                    if d == 0 and t.text == "}" and kw in ("enum", "struct"):
+                        break
                 elif t.text == ";" and d == 0:
                     break
                 e += 1
-            return {"kind": kw, "name": name, "start": k, "end": e + 1, "impl": None, "ci": ci}
+            # include attributes directly in front of the nested item (they are dropped by N3)
+            st = k
+            while st - 1 >= lo and toks[ci[st - 1]].text == "]":
+                j = st - 1
+                dd = 0
+                while j >= lo:
+                    if toks[ci[j]].text == "]":
+                        dd += 1
+                    elif toks[ci[j]].text == "[":
+                        dd -= 1
+                        if dd == 0:
+                            break
+                    j -= 1
+                if j - 1 >= lo and toks[ci[j - 1]].text == "#":
+                    st = j - 1
+                else:
+                    break
+            return {"kind": kw, "name": name, "start": st, "end": e + 1, "impl": None, "ci": ci}
         cands = [it for it in _items_in(toks, ci, lo, hi) if it[0] == kind and it[1] == name]
         if len(cands) < nth:
             raise ExtractError(f"item not found: {part!r} (of {path!r})")
@@ -1493,12 +1512,12 @@ class Generator:
             cl["text"] = (cl["text"] + " " + l.strip()).strip()
             self.out.append((l + f" /*@{c}*/", {"k": "inj", "clause": c, "tags": list(ct), "item": iid}))
         self.out.append(("{ /*@N11 fragment start*/", {"k": "inj", "clause": f"{iid}.frame", "tags": list(tags), "item": iid}))
-        for l in pre:
-            self.out.append((l + f" /*@{iid}.frame*/", {"k": "inj", "clause": f"{iid}.frame", "tags": list(tags), "item": iid}))
         if self.canary:
             n = len(self.canaries) + 1
             self.canaries.append({"id": f"CANARY.{n}", "item": iid, "where": "fragment entry"})
             self.out.append((f"        assert(vcanary({n})); /*@CANARY.{n}*/", {"k": "inj", "clause": f"CANARY.{n}", "tags": list(tags), "item": iid}))
+        for l in pre:
+            self.out.append((l + f" /*@{iid}.frame*/", {"k": "inj", "clause": f"{iid}.frame", "tags": list(tags), "item": iid}))
         buf = ""
         line = first_line
         info = {"k": "src", "file": file, "line": line}
